@@ -274,6 +274,24 @@ pub fn check_arb(s: &dyn Subject, ctx: &Ctx, rep: &mut DeclReport, bytes: &[u8],
                 }
             }
             rep.bump("ok");
+            // the take-rest entry point on the same input: whatever it yields is a stored value under the same rules
+            if n % 4 == 0 {
+                match s.arb_take_rest(bytes) {
+                    Some(ArbObs::Ok(w)) => {
+                        rep.executions += 1;
+                        rep.guard("take_rest_checked");
+                        let (al, _, _) = ctx.oracle.validate(spec, &w);
+                        if !al.iter().any(|o| *o == crate::oracle::Outcome::Accept) {
+                            rep.violate("arb-take-rest-yields-invalid-value", hex(bytes), w.show(), format!("{:?}", al), String::new());
+                        }
+                    }
+                    Some(ArbObs::Panic(m)) => {
+                        let cause = classify_panic(spec, &m);
+                        rep.violate(&format!("arb-panic:{cause}"), format!("take_rest:{}", hex(bytes)), format!("PANIC({})", m.replace('\n', " ").chars().take(300).collect::<String>()), "a valid value or arbitrary::Error".into(), String::new());
+                    }
+                    _ => {}
+                }
+            }
             // bound adjacency observations (corpus-level guards)
             for val in &spec.vals {
                 if let Some(b) = val.bound() {
@@ -458,10 +476,14 @@ pub fn run_c14(s: &dyn Subject, ctx: &Ctx) -> Option<DeclReport> {
         return Some(rep);
     }
     let mut produced: std::collections::BTreeSet<Value> = Default::default();
+    let mut produced_rest: std::collections::BTreeSet<Value> = Default::default();
     let mut offer = |bytes: &[u8], rep: &mut DeclReport| {
         rep.executions += 1;
         if let Some(ArbObs::Ok(v)) = s.arb(bytes) {
             produced.insert(v);
+        }
+        if let Some(ArbObs::Ok(v)) = s.arb_take_rest(bytes) {
+            produced_rest.insert(v);
         }
     };
     offer(&[], &mut rep);
@@ -487,6 +509,11 @@ pub fn run_c14(s: &dyn Subject, ctx: &Ctx) -> Option<DeclReport> {
             _ => "interior",
         };
         rep.violate(&format!("valid-values-never-produced:{where_}"), format!("{} valid values", valid.len()), format!("{} produced; missing {} e.g. {} .. {}", produced.len(), missing.len(), first.show(), last.show()), "produced set == valid set".into(), String::new());
+    }
+    // `arbitrary_take_rest` is the same generator handed the whole remaining input: over the same inputs it must reach every valid value too
+    let missing_rest: Vec<&Value> = valid.difference(&produced_rest).collect();
+    if !missing_rest.is_empty() && missing.is_empty() {
+        rep.violate("valid-values-never-produced-by-take-rest", format!("{} valid values", valid.len()), format!("{} produced through arbitrary_take_rest; missing {} e.g. {} .. {}", produced_rest.len(), missing_rest.len(), missing_rest[0].show(), missing_rest[missing_rest.len() - 1].show()), "produced set == valid set".into(), String::new());
     }
     rep.guard_add(&format!("range_size_{}", valid.len()), 1);
     rep.class(&format!("range-size-{}", valid.len()));
